@@ -33,21 +33,22 @@ def cases(tier, seed):
             c = rng.choice(seps)
             add('$pad(s, %s, c)' % p(a), {'s': s, 'c': c}, ('pad',))
             add('$length($pad(s, %s, c))' % p(a), {'s': s, 'c': c}, ('pad-law',))
+            if c != '' and a == int(a): add('$length($pad(s, %s, c)) = $max([$abs(%s), $length(s)])' % (p(a), p(a)), {'s': s, 'c': c}, ('law', 'law-total'))
         for c in (seps if tier != 'quick' else rng.sample(seps, 4)):
             d2 = {'s': s, 'c': c}
             add('[$substringBefore(s, c), $substringAfter(s, c), $contains(s, c)]', d2, ('before-after',))
             add('$contains(s, c) ? ($substringBefore(s, c) & c & $substringAfter(s, c) = s) : ($substringBefore(s, c) = s and $substringAfter(s, c) = s)', d2, ('law',))
             add('$split(s, c)', d2, ('split',))
-            add('$join($split(s, c), c) = s', d2, ('law',))
+            add('$join($split(s, c), c) = s', d2, ('law', 'law-total'))
             lim = rng.choice(params)
             add('$split(s, c, %s)' % p(lim), d2, ('split',))
             add('$join($split(s, c), c)', d2, ('join',))
             r = rng.choice(seps)
             add('$replace(s, c, r)', {'s': s, 'c': c, 'r': r}, ('replace',))
             add('$replace(s, c, r, %s)' % p(lim), {'s': s, 'c': c, 'r': r}, ('replace',))
-        add('$base64decode($base64encode(s)) = s', d, ('law',))
+        add('$base64decode($base64encode(s)) = s', d, ('law', 'law-total'))
         add('$base64encode(s)', d, ('codec',))
-        add('$decodeUrlComponent($encodeUrlComponent(s)) = s', d, ('law',))
+        add('$decodeUrlComponent($encodeUrlComponent(s)) = s', d, ('law', 'law-total') if s != '\ufffd' else ('law',))
         add('[$encodeUrlComponent(s), $decodeUrlComponent(s), $decodeUrl(s)]', d, ('codec',))
         add('$base64decode(s)', d, ('codec',))
     # random longer strings
